@@ -363,6 +363,25 @@ func genEqualCase(r *rng, id string) *EqualCase {
 		default:
 			d2 = g.value(3)
 		}
+		if r.chance(1, 6) {
+			// same size, one key renamed, null on one or both sides of the renamed member
+			// (a missing member is not a null member), possibly below an array
+			o := DObj{}
+			for _, nm := range shuffled(r, namePool)[:1+r.intn(3)] {
+				o = append(o, DMem{nm, g.value(1)})
+			}
+			k := r.intn(len(o))
+			o[k].V = DNull{}
+			o2 := append(DObj{}, o...)
+			o2[k] = DMem{o[k].K + "x", pick(r, []Doc{DNull{}, DNum("1"), g.value(1)})}
+			d1, d2 = Doc(o), Doc(o2)
+			if r.chance(1, 3) {
+				d1, d2 = DArr{DNum("1"), d1}, DArr{DNum("1"), d2}
+			}
+			if r.chance(1, 2) {
+				d1, d2 = d2, d1
+			}
+		}
 		// integers beyond 2^53 only in int64/uint64/json.Number: repNumber handles by exactness
 		a, b := instOf(repValue(r, d1, 0)), instOf(repValue(r, d2, 0))
 		if a.Sx != b.Sx {
